@@ -251,7 +251,7 @@ class C03(core.Check):
         "relations, of the simple validators and of Chop.invert are translated from the source text (ast) at every run and proved "
         "equal to the model (T_C03_translated_*); in those theorems log/int, ceil, brentq and fractional powers are oracle slots "
         "under the model's validators, and the brentq brackets / fcnt / fexp are pinned syntactically only. Chop.__post_init__ and "
-        "copy_preserving are not translated (model + correspondence)."
+        "copy_preserving are not translated (model + correspondence). Round 6b: one tie theorem per relation; locals compared up to renaming."
     )
 
     # ------------------------------------------------------------------ generators
